@@ -121,7 +121,7 @@ def leaf_value(p):
     return {
         "int": ints(), "nat": ints(False), "mutez": mutez(), "timestamp": timestamps(), "string": mstrings(),
         "bytes": mbytes(), "bool": st.booleans(), "unit": st.just(()), "key_hash": key_hashes(),
-        "address": addresses(), "key": keys(), "signature": signatures(), "chain_id": chain_ids(),
+        "address": addresses(), "tx_rollup_l2_address": addresses(kinds=(2,)), "key": keys(), "signature": signatures(), "chain_id": chain_ids(),
         "bls12_381_fr": st.one_of(st.sampled_from([0, 1, rv.BLS_R - 1]), st.integers(0, rv.BLS_R - 1)),
     }[p]
 
